@@ -16,7 +16,7 @@ def diff_str(d):
 
 def run_query_property(prop, judge, imports, known_map, rule, assumptions, tier, seed, n_quick=1200, n_thorough=30000,
                        gen=None, engine="postgresql", extra=None, corr_name="compile", what="the property fails", extra_args=None,
-                       classify=None, with_generate=False, second=None):
+                       classify=None, with_generate=False, second=None, chunk_hook=None):
     """known_map: class number -> known-finding class name; gen(rng) -> case dict"""
     rep = Report(prop, tier, seed)
     ok, info = prep(prop)
@@ -60,6 +60,8 @@ def run_query_property(prop, judge, imports, known_map, rule, assumptions, tier,
             exprs.append("%s %s %s %s %s %s" % (judge, env_coq(r, engine), node_coq(r["ast"][0]), coqstr(c["queries"]), xa, impl))
             idx.append(i)
         verdicts = coq_eval(header, exprs, tag=prop.lower())
+        if chunk_hook is not None:
+            chunk_hook(rep, chunk, res, dict(zip(idx, verdicts)))
         if second is not None:
             mk, handle = second
             ex2, ix2 = [], []
@@ -86,6 +88,8 @@ def run_query_property(prop, judge, imports, known_map, rule, assumptions, tier,
                 rep.count("known-class:%d" % known)
             replay = {"schema": c["schema"], "queries": c["queries"], "impl": {k: r.get(k) for k in ("ok", "errs", "queries", "panic")}}
             blind = bool(wf & 2)
+            if wf & 4:
+                rep.count("not-judged-by-spec")
             wf = wf & 1
             if blind:
                 rep.count("model-blind:cte-alias-shared")
